@@ -43,11 +43,11 @@ func VerifGenerateContCfgForVlan(cfg *types.SetupConfig, link netlink.Link) *nic
 // VerifDstRuleKeeps: would setupFilters keep a filter it finds installed for the CIDR `installed` (built the way it builds its
 // own, actions included) as the one implementing `ip` - redirectRule.isMatch on it.
 func VerifDstRuleKeeps(index int, ip, installed *net.IPNet, dstIndex int) (bool, error) {
-	want, err := dstIPRule(index, ip, dstIndex, netlink.TCA_EGRESS_REDIR)
+	want, err := dstIPRule(index, ip, dstIndex, netlink.TCA_INGRESS_REDIR)
 	if err != nil {
 		return false, err
 	}
-	have, err := dstIPRule(index, installed, dstIndex, netlink.TCA_EGRESS_REDIR)
+	have, err := dstIPRule(index, installed, dstIndex, netlink.TCA_INGRESS_REDIR)
 	if err != nil {
 		return false, err
 	}
